@@ -211,10 +211,10 @@ class VariableTransformer:
 
         numeps = 1e-6  # accepted numerical error
         tests = np.zeros(4)
-        tests[0] = np.all(np.abs(ginv(g(lbtest)) - lbtest) < numeps)
-        tests[1] = np.all(np.abs(ginv(g(ubtest)) - ubtest) < numeps)
-        tests[2] = np.all(np.abs(ginv(g(self.orig_plb)) - self.orig_plb) < numeps)
-        tests[3] = np.all(np.abs(ginv(g(self.orig_pub)) - self.orig_pub) < numeps)
+        tests[0] = np.all(np.abs(ginv(g(lbtest)) - lbtest) < numeps * np.maximum(1.0, np.abs(lbtest)))
+        tests[1] = np.all(np.abs(ginv(g(ubtest)) - ubtest) < numeps * np.maximum(1.0, np.abs(ubtest)))
+        tests[2] = np.all(np.abs(ginv(g(self.orig_plb)) - self.orig_plb) < numeps * np.maximum(1.0, np.abs(self.orig_plb)))
+        tests[3] = np.all(np.abs(ginv(g(self.orig_pub)) - self.orig_pub) < numeps * np.maximum(1.0, np.abs(self.orig_pub)))
         if not np.all(tests):
             raise ValueError("Cannot invert the transform to obtain the identity at the provided boundaries.")
 
